@@ -20,6 +20,7 @@ POOL = [
     ("H+", {}, "H+"),
     ("H++", {}, "H++"),
     ("H-", {}, "H-"),
+    ("H--", {}, "H--"),
     ("e-", {}, "electron"),
     ("E", {}, "electron"),
     ("oH2", {}, "oH2"),
@@ -27,6 +28,8 @@ POOL = [
     ("#H", {}, "ice:H"),
     ("GH", {"surface_prefix": "G"}, "ice:H"),
     ("#H2", {}, "ice:H2"),
+    ("#1H", {}, "ice1:H"),
+    ("#2H", {}, "ice2:H"),
     ("GRAIN0", {}, "GRAIN0"),
     ("GRAIN0-", {}, "GRAIN0-"),
     ("H2*", {}, "H2*"),
@@ -35,7 +38,7 @@ POOL = [
     ("He", {}, "He"),
     ("He+", {}, "He+"),
 ]
-QUICK_POOL = POOL[:10] + POOL[11:12] + POOL[13:16]
+QUICK_POOL = [p for p in POOL if p[0] in ('H', 'H+', 'H-', 'H--', 'e-', 'E', 'oH2', '#H', 'GH', '#1H', '#2H', 'GRAIN0', 'H2*', 'c-C3H2', 'CO')]
 
 IDENT = re.compile(r"^[A-Za-z_][A-Za-z0-9_]*$")
 
@@ -45,7 +48,12 @@ def subsets(tier):
     kmax = 3 if tier == "quick" else 4
     for k in range(1, kmax + 1):
         for c in itertools.combinations(range(len(pool)), k):
-            yield [pool[i] for i in c]
+            sel = [pool[i] for i in c]
+            names = {n for n, _, _ in sel}
+            # grain group 0 together with surface groups 1/2 is an inconsistent network (refused by design)
+            if names & {"GRAIN0", "GRAIN0-"} and names & {"#1H", "#2H"}:
+                continue
+            yield sel
 
 
 def parse_macro_lines(text):
@@ -105,7 +113,9 @@ def check_files(files, backend, nexp, label, viols, ids_expected):
             viols.append((f"C09:illegal-identifier:{ch}", f"{label}: generated macro name {n!r} is not a C/Python identifier", None))
     names = [n for n, _ in spec]
     if len(set(names)) != len(names):
-        viols.append((f"C09:duplicate-identifier", f"{label}: identifiers {sorted(x for x in names if names.count(x) > 1)} generated twice", None))
+        dups = sorted({x for x in names if names.count(x) > 1})
+        tag = "surface-group" if any(n in label for n in ("#1H", "#2H")) and all(d.startswith("IDX_G") for d in dups) else "other"
+        viols.append((f"C09:duplicate-identifier:{tag}", f"{label}: identifiers {dups} generated twice", None))
     try:
         vals = [int(v) for _, v in spec]
     except ValueError:
@@ -219,7 +229,8 @@ def run_case(arg):
                 if [a for a, _ in adef] != rows:
                     viols.append((f"C09:enzo-order", f"{label}: A_ defines {adef} vs table {rows}", None))
                 if len({a for a, _ in adef}) != len(adef):
-                    viols.append((f"C09:enzo-duplicate", f"{label}: duplicate A_ macros {adef}", None))
+                    tag = "surface-group" if any(n in label for n in ("#1H", "#2H")) else "other"
+                    viols.append((f"C09:enzo-duplicate:{tag}", f"{label}: duplicate A_ macros {adef}", None))
                 for a, _ in adef:
                     if not IDENT.match(a):
                         ch = "".join(sorted(set(re.sub(r"[A-Za-z0-9_]", "", a))))
